@@ -12,8 +12,9 @@ value trees on the line protocol, space separated tokens:
   c02.dec <variant> <class> <type> <origin|none> <pfx-hex> <rdata-hex>   →  ok <tree> | err
   c02.enc <variant> <class> <type> <origin|none> <tree>                   →  ok <hex> | invalid | needabs
 
-  <variant>: 0 = the code as shipped; 1 = the recorded defect `EDE-text-ends-with-NUL` repaired (every trailing NUL of
-  an EDE text dropped).  The harness learns which one the working tree implements by replaying the witness.
+  <variant>: 1 = every trailing NUL of an EDE text is dropped on decoding (the working tree since the repair of
+  `C02/fixpoint/EDE-text-ends-with-NUL`; this is the table's OPT entry); 0 = the code as shipped before (one NUL).
+  The harness learns which one the working tree implements by replaying the witness.
   c02.wf                                                        →  per-type static status (for the evidence)
 -/
 namespace Driver
@@ -61,7 +62,7 @@ def statusLine (e : Entry) : String :=
 
 def lookupV (variant c t : Nat) : Entry :=
   let e := lookup c t
-  if variant = 1 ∧ e.typ = 41 ∧ e.isCustom then { e with custom := some ⟨optPostIntended, id⟩ } else e
+  if variant = 0 ∧ e.typ = 41 ∧ e.isCustom then { e with kind := .optShipped } else e
 
 def handleC02 : List String → Option String
   | ["c02.dec", vr, c, t, o, p, r] => do
